@@ -1,8 +1,9 @@
 \* exhaustive, ALL actions together, deeper (thorough)
 CONSTANTS N = 4  Par = {"p", "q"}  NVal = 2  NGrid = 2  MaxDepth = 2  MaxLevel = 6
-          GridSlot = "stack"  PickleSerial = "fresh"
+          GridSlot = "stack"  PickleSerial = "fresh"  DbSerial = "max"
 CONSTANTS Keeps <- KeepsTwo  Acts <- ActsAll  Parent0 <- ParentA  Cls0 <- ClsA
           ParOf <- McParOf  GridCls <- McGridCls  MatCls <- McMatCls
+          DbCls <- McDbCls  CopyCls <- McAllCls  CallsOf <- McCallsOf
 INIT Init
 NEXT Next
 CONSTRAINT Bound
